@@ -194,6 +194,7 @@ static void gen_c17(plan_t *p, rng_t *r)
     static const int paints[] = { 0x00, 0xFF, 'a', 'Z', 0xA5, '1', '.' };
     int nops = rng_range(r, 1, 20 * sim_tier_scale());
     plan_knob(p, "alloc.fill", rng_range(r, 0, 4));
+    plan_knob(p, "alloc.zero", rng_chance(r, 1, 4)); plan_knob(p, "alloc.realloc0", rng_chance(r, 1, 4));      /* the two readings ISO C allows for a request of no bytes */
     if ((int)(p->seed % 1000000) < c17_sweep_plans()) {
         int first = (int)(p->seed % 1000000) * 20;
         plan_knob(p, "sweep", 1);
@@ -589,6 +590,7 @@ static void gen_c14(plan_t *p, rng_t *r)
 #define LONGW(lo, hi) (rng_chance(r, 1, 12) ? 31 + (int)rng_below(r, 3) : rng_chance(r, 1, 20) ? 63 : rng_range(r, lo, hi))
     plan_knob(p, "ns", (long)rng_below(r, 256));
     plan_knob(p, "alloc.fill", rng_range(r, 0, 4));
+    plan_knob(p, "alloc.zero", rng_chance(r, 1, 4)); plan_knob(p, "alloc.realloc0", rng_chance(r, 1, 4));      /* the two readings ISO C allows for a request of no bytes */
     plan_knob(p, "alloc.realloc", rng_range(r, 0, 2));
     for (int i = 0; i < nops; i++) {
         char txt[4000], w[1300];
@@ -749,6 +751,7 @@ static void exec_c15_api(const plan_t *p)
             if (k[0] == 'm') { if (viamacro) { q = shim_malloc(size, &line); file = shim_file(); } else q = spifmem_malloc(file, line, size); }
             else if (k[0] == 'c') { if (viamacro) { size *= 3; q = shim_calloc(size, &line); file = shim_file(); size /= 3; } else q = spifmem_calloc(file, line, size, 3); size *= 3; for (size_t z = 0; z < size; z++) if (((char *)q)[z]) sim_fail("MISMATCH(calloc-zero)", "calloc memory is not zeroed"); }
             else { char *t = blockdup(o->s ? o->s : (const unsigned char *)"", o->slen); if (viamacro) { q = shim_strdup(t, &line); file = shim_file(); } else q = spifmem_strdup("v", file, line, t); size = strlen(t) + 1; if (strcmp(q, t)) sim_fail("MISMATCH(strdup-content)", "strdup copy differs"); sim_free(t); }
+            if (!q && !size && plan_get(p, "alloc.zero", 0)) { probe_hit("nothing_asked_nothing_given"); tr_printf("%s of no bytes -> NULL", k); if (libast_debug_level >= 5) check_table(k); continue; }      /* the C library answers a request for no bytes with NULL: nothing is live, nothing is recorded */
             if (!q) sim_fail("MISMATCH(alloc-null)", "%s returned NULL", k);
             if (sa_stat_reuses != before) probe_hit("address_reused_after_free");
             sh[s].p = q; sh[s].size = size; sh[s].tracked = tracking; sh[s].line = line; snprintf(sh[s].file, sizeof(sh[s].file), "%.20s", file);
@@ -836,6 +839,7 @@ static void gen_c15(plan_t *p, rng_t *r)
     untracked_prefix = rng_chance(r, 1, 4) ? rng_range(r, 1, 10) : 0;
     plan_knob(p, "level0", untracked_prefix ? 4 : 5);
     plan_knob(p, "alloc.fill", rng_range(r, 0, 4));
+    plan_knob(p, "alloc.zero", rng_chance(r, 1, 4)); plan_knob(p, "alloc.realloc0", rng_chance(r, 1, 4));      /* the two readings ISO C allows for a request of no bytes */
     plan_knob(p, "alloc.realloc", rng_range(r, 0, 2));
     plan_knob(p, "alloc.reuse", rng_chance(r, 2, 3) ? REUSE_LIFO : rng_range(r, 0, 2));
     int bulk_at = rng_chance(r, 1, 40) ? (int)rng_below(r, (uint32_t)nops) : -1, bulk_free_at = bulk_at >= 0 && rng_chance(r, 2, 3) ? bulk_at + 1 + (int)rng_below(r, (uint32_t)(nops - bulk_at)) : -1;
